@@ -77,7 +77,11 @@ std::string open_fd_desc() {
 static int transient(int kind) {
   int nth = g_st.calls[kind]++;
   for (auto &f : g_faults)
-    if (f.kind == kind && f.nth == nth) { f.fired = true; g_st.fired++; return f.err; }
+    if (f.kind == kind && f.nth == nth) {
+      f.fired = true; g_st.fired++;
+      g_st.fired_positions.push_back(strf("%s.%d", kind_name(kind), nth));
+      return f.err;
+    }
   return 0;
 }
 
